@@ -23,7 +23,7 @@ RULE = (
     "TagInts(Tag[int,V]); dataclass Info, a registered collection class adding Top/N/Rest): every class gets 2-4 methods whose "
     "return annotation is drawn from a type grammar (scalars, classes, generic instantiations, own type variables, "
     "iterables of these, or no annotation). Expressions: method chains, Select/SelectMany/Where/First/Count/len/[0] on "
-    "iterables, comparisons, and/or, + - * /, dict literals and dataclass fields by attribute and key, depth <=4; 1-3 stream "
+    "iterables, comparisons, and/or, + - * / // % over int / float / bool operands (bool counts as int: True + True == 2), dict literals and dataclass fields by attribute and key, depth <=4; 1-3 stream "
     "stages. Expected type computed by the generator's own substitution of type variables along declared bases. "
     "Non-trivial = expected type is not Any and (>=2 typed steps or a generic/inheritance edge crossed). Distinct by model + query."
 )
@@ -274,14 +274,21 @@ def _num(draw, model, env, depth):
     def operand():
         if depth > 0 and draw(st.booleans()):
             e, t = draw(_expr(model, env, depth - 1))
-            if t in (["int"], ["float"], ["any"]):
+            if t in (["int"], ["float"], ["any"], ["bool"]):
                 return e, t
+        if draw(st.integers(0, 5)) == 0:
+            # a bool operand (python: True + True == 2): comparisons, and/or results, True / False
+            if depth > 0 and draw(st.booleans()):
+                return draw(_bool(model, env, depth - 1)), ["bool"]
+            return ["const", draw(st.sampled_from(["True", "False"])), ["bool"]], ["bool"]
         v = draw(st.sampled_from([("1", ["int"]), ("2", ["int"]), ("1.5", ["float"]), ("0.25", ["float"])]))
         return ["const", v[0], v[1]], v[1]
 
     a, ta = operand()
     b, tb = operand()
-    op = draw(st.sampled_from(["+", "-", "*", "/"]))
+    if ta == ["bool"] and tb != ["bool"] and draw(st.booleans()):
+        b, tb = draw(_bool(model, env, max(depth - 1, 0))), ["bool"]  # both operands bool
+    op = draw(st.sampled_from(["+", "-", "*", "/", "+", "-", "*", "/", "//", "%"]))
     if ta == ["any"] or tb == ["any"]:
         t = ["any"]
     elif ta == ["float"] or tb == ["float"] or op == "/":
